@@ -198,6 +198,50 @@ func contextRun(args []string) int {
 			os.RemoveAll(d)
 		}
 	}
+	// a crowded directory: thousands of unrelated files around the markers change nothing
+	for bi, nfill := range []int{1100, 3000, 6000} {
+		markers := [][]string{{"Dockerfile", "package.json", "go.mod", "Makefile"}, {"package.json"}, {"Dockerfile", "Cargo.toml", "requirements.txt", "pom.xml", ".git"}}[bi]
+		small := filepath.Join(base, fmt.Sprintf("small%d", bi))
+		big := filepath.Join(base, fmt.Sprintf("big%d", bi))
+		os.MkdirAll(small, 0o755)
+		os.MkdirAll(big, 0o755)
+		put := func(dir, n string) {
+			if n == ".git" {
+				os.Mkdir(filepath.Join(dir, n), 0o755)
+			} else {
+				os.WriteFile(filepath.Join(dir, n), []byte("{}\n"), 0o644)
+			}
+		}
+		for i, m := range markers {
+			put(small, m)
+			if i%2 == 0 {
+				put(big, m)
+			}
+		}
+		for i := 0; i < nfill; i++ {
+			os.WriteFile(filepath.Join(big, fmt.Sprintf("note-%05d.zzq", i)), nil, 0o644)
+		}
+		for i, m := range markers {
+			if i%2 == 1 {
+				put(big, m)
+			}
+		}
+		typesOf := func(dir string) string {
+			c, err := wtfctx.NewAnalyzer().AnalyzeDirectory(dir)
+			if err != nil || c == nil {
+				return "error"
+			}
+			ts := []string{}
+			for _, t := range c.ProjectTypes {
+				ts = append(ts, string(t))
+			}
+			sort.Strings(ts)
+			return strings.Join(ts, ",")
+		}
+		tr++
+		w.emit(map[string]interface{}{"op": "ctxbig", "tr": tr, "fillers": nfill, "markers": markers, "types": typesOf(big), "alone": typesOf(small), "same": typesOf(big) == typesOf(small)})
+		os.RemoveAll(big)
+	}
 	// the command line derives its context from the directory it runs in - whatever the environment says (a launcher that
 	// sets the working directory need not rewrite PWD)
 	ncli := 0
